@@ -88,6 +88,8 @@ BASE_SCRIPTS = {
     "if-elif-else": "x = 5\nif x > 3:\n    y = 1\nelif x > 1:\n    y = 2\nelse:\n    y = 3\nz = y\n",
     "try-except": "x = 1\ntry:\n    y = x + 1\nexcept Exception:\n    y = 0\nz = y\n",
     "def": "def f(a, b):\n    if a > b:\n        return a\n    return b\nr = f(1, 2)\n",
+    "else-starting-with-if": ("from Reduino.Actuators import Led\nled = Led(13)\na = 1\nb = 2\nif a > 5:\n    led.on()\nelse:\n    if b > 1:\n        led.off()\n    else:\n        led.toggle()\n"
+                              "    led.set_brightness(7)\n    a = a + 3\n    for i in range(2):\n        led.toggle()\nz = a\n"),
     "nested": ("from Reduino.Actuators import Led\nled = Led(13)\nn = 0\nwhile True:\n    for i in range(3):\n        if i > 1:\n"
                "            led.on()\n        else:\n            led.off()\n    n = n + 1\n    while n > 5:\n        n = n - 1\n"),
 }
@@ -158,6 +160,8 @@ DROP_PROBES = {
     "return-at-top-level": ("x = 1\nreturn x\n", "return"),
     "break-in-plain-loop": ("x = 0\nwhile x < 9:\n    x = x + 1\n    if x > 3:\n        break\n", "break"),
     "pass": ("x = 1\nif x > 0:\n    pass\n", None),
+    "statements-after-an-if-that-starts-an-else-block": ("from Reduino.Actuators import Led\nled = Led(13)\na = 1\nif a > 5:\n    led.on()\nelse:\n    if a > 0:\n        led.off()\n    led.set_brightness(77)\n", "77"),
+    "statements-after-an-if-that-starts-an-elif-block": ("from Reduino.Actuators import Led\nled = Led(13)\na = 1\nif a > 5:\n    led.on()\nelif a > 3:\n    if a > 4:\n        led.off()\n    led.set_brightness(78)\nelse:\n    led.off()\n", "78"),
     "return-tight-against-parenthesis": ("def ten():\n    return(10)\nr = ten()\n", "return"),
     "return-tight-against-minus": ("def minus():\n    return-1\nr = minus()\n", "return"),
     "return-tight-against-string": ("def word():\n    return'ab'\nr = word()\n", "return"),
@@ -318,6 +322,37 @@ def extra_obligations(mods, tier, seed):
                 bad.append({"statement": stmt, "position": pos, "script": src, "problem": f"{want} assignment(s) to `{var}` in the loop body, {n_assign} in loop()"})
     out.append({"name": "C07/structure/main-loop-statements-stay-in-the-loop", "status": "discharged" if not bad else "sat", "backend": "enum",
                 "where": f"{len(LOOP_STMTS)} first-binding statements x 3 positions in the `while True:` body: each assignment written in the body is an assignment inside loop()",
+                "time": round(time.time() - t1, 3), "replay": {"failing": bad[:4]}, "replay_confirmed": bool(bad)})
+    # (2e) a statement that occurs several times occurs as many times in the firmware: the same device / Core call written twice (both arms
+    #      of an if, twice in the loop body around another call, in setup and in the loop) is emitted twice
+    t1 = time.time()
+    REPEAT = {"pin_mode": ("from Reduino.Core import pin_mode, digital_write, OUTPUT, INPUT, HIGH\n", "pin_mode(7, OUTPUT)", "pin_mode(7, INPUT)", "pinMode(7, OUTPUT)"),
+              "digital_write": ("from Reduino.Core import pin_mode, digital_write, OUTPUT, HIGH, LOW\npin_mode(7, OUTPUT)\n", "digital_write(7, HIGH)", "digital_write(7, LOW)", "digitalWrite(7, HIGH)"),
+              "analog_write": ("from Reduino.Core import pin_mode, analog_write, OUTPUT\npin_mode(6, OUTPUT)\n", "analog_write(6, 10)", "analog_write(6, 20)", "analogWrite(6, 10)"),
+              "led.on": ("from Reduino.Actuators import Led\nled = Led(13)\n", "led.on()", "led.off()", "digitalWrite(13, HIGH)"),
+              "servo.write": ("from Reduino.Actuators import Servo\nsv = Servo(9)\n", "sv.write(30)", "sv.write(60)", "30"),
+              "sleep": ("from Reduino.Utils import sleep\n", "sleep(11)", "sleep(12)", "delay(11)"),
+              "serial.write": ("from Reduino.Communication import SerialMonitor\nmon = SerialMonitor(9600)\n", "mon.write('x')", "mon.write('y')", 'println("x")')}
+    bad = []
+    for rname, (pre, stmt, other, marker) in REPEAT.items():
+        shapes = {"twice-in-loop-body": (pre + "while True:\n    " + stmt + "\n    " + other + "\n    " + stmt + "\n", 2),
+                  "both-arms-of-if": (pre + "c = 1\nwhile True:\n    if c > 0:\n        " + stmt + "\n    else:\n        " + stmt + "\n    c = 1 - c\n", 2),
+                  "setup-and-loop": (pre + stmt + "\n" + other + "\nwhile True:\n    " + stmt + "\n    " + other + "\n", 2),
+                  "three-times-straight-line": (pre + stmt + "\n" + other + "\n" + stmt + "\n" + other + "\n" + stmt + "\n", 3)}
+        for shname, (src, want) in shapes.items():
+            try:
+                cpp = E.emit(P.parse(src))
+            except (ValueError, SyntaxError):
+                continue
+            except Exception as ex:
+                bad.append({"call": stmt, "shape": shname, "problem": f"{type(ex).__name__}: {ex}"})
+                continue
+            body_txt = cpp[cpp.index("void setup()"):] if "void setup()" in cpp else cpp
+            got = body_txt.replace(" ", "").count(marker.replace(" ", ""))
+            if got < want:
+                bad.append({"call": stmt, "shape": shname, "script": src, "problem": f"written {want} times, `{marker}` occurs {got} time(s) in setup()/loop()"})
+    out.append({"name": "C07/no-silent-drop/repeated-statements-are-all-emitted", "status": "discharged" if not bad else "sat", "backend": "enum",
+                "where": f"{len(REPEAT)} calls x 4 placements of a repeated statement: every occurrence is in the firmware",
                 "time": round(time.time() - t1, 3), "replay": {"failing": bad[:4]}, "replay_confirmed": bool(bad)})
     # (2c) every typed variant of a helper has the block structure of the one Python function it comes from: the IR bodies of all
     #      variants of a name have the same tree of statement kinds (types and expressions may differ, blocks may not), and that tree
